@@ -166,14 +166,29 @@ func gen(t int, rng *rand.Rand) params {
 			}
 		}
 	}
-	// join order: the seeder first in most swarms, anywhere otherwise
-	rest := append([]string(nil), p.peers[1:]...)
+	// join order = announce order = handout order.  Without a corrupting peer: the seeder first in most swarms,
+	// anywhere otherwise.  With one: the corrupter usually announces before the seeder, so that agents meet it.
+	var rest []string
+	for _, q := range p.peers {
+		if q != "s1" && q != "x1" {
+			rest = append(rest, q)
+		}
+	}
 	rng.Shuffle(len(rest), func(i, j int) { rest[i], rest[j] = rest[j], rest[i] })
-	if rng.Intn(4) == 0 {
-		k := rng.Intn(len(rest) + 1)
-		p.order = append(append(append([]string{}, rest[:k]...), "s1"), rest[k:]...)
-	} else {
-		p.order = append([]string{"s1"}, rest...)
+	ins := func(list []string, k int, q string) []string {
+		return append(append(append([]string{}, list[:k]...), q), list[k:]...)
+	}
+	switch k := rng.Intn(4); {
+	case !p.hasX && k == 0:
+		p.order = ins(rest, rng.Intn(len(rest)+1), "s1")
+	case !p.hasX:
+		p.order = ins(rest, 0, "s1")
+	case k <= 1:
+		p.order = append([]string{"x1", "s1"}, rest...)
+	case k == 2:
+		p.order = ins(ins(rest, rng.Intn(len(rest)+1), "s1"), 0, "x1")
+	default:
+		p.order = append([]string{"s1", "x1"}, rest...)
 	}
 	for _, q := range p.order {
 		p.delay[q] = []int{0, 0, 5, 30, 150}[rng.Intn(5)]
